@@ -198,6 +198,22 @@ func (a *partA) eval(sp *speaker, labels []ir.Label, decoy bool) {
 	}
 	fp := rows[len(rows)-1].FP
 	stored := sp.Stored(full)
+	if alt := ir.Sanitized(full); ir.LabelsKey(alt) != ir.LabelsKey(stored) {
+		// protocols that today store names/values unsanitised (Datadog, OTLP values) may equally apply the common
+		// sanitisation: if the stored document says so, that is the expected set
+		for _, c := range out.Chunks {
+			if c.Ts == nil {
+				continue
+			}
+			for i, f := range c.Ts.MFingerprint {
+				if f == fp && i < len(c.Ts.MLabels) {
+					if d, err := ir.StrictStringObject([]byte(c.Ts.MLabels[i])); err == nil && ir.LabelsKey(d) == ir.LabelsKey(alt) {
+						stored = alt
+					}
+				}
+			}
+		}
+	}
 	raw := ir.LabelsKey(stored)
 	norm := ir.LabelsKey(normUTF8(stored))
 	who := fmt.Sprintf("%s order=%s decoy=%v", sp.Name, orderOf(labels), decoy)
